@@ -53,7 +53,7 @@ func init() {
 		return &fw.Prop{
 			ID:    "C03",
 			Level: "exploration",
-			Rule:  "cases = (circuit-A proof restricted to k=1 (plus the full instance), forged limb assignment, public values) executed through CircuitFixed.Define: limb_i + k*p for every limb index and k in {1, 2, 2^20, largest k the 144-bit reduction admits}, pairs / all limbs shifted, borrow-shifted limbs with the same packed value, random limbs in [0,2^64), random / off-by-one public values, public values reduced modulo 2^128; the public values are recomputed from the forged limbs unless stated. Oracle: ACCEPT iff the limbs are the true public inputs (all < 2^32) and the values are their packing; every accepted value must be < 2^128. A shadow-bound run additionally requires the packing equality to be wrap-free under the enforced limb bounds. Non-trivial = limbs or values differ from the honest ones (the honest control counts once); distinct by case id.",
+			Rule:  "cases = (circuit-A proof restricted to k=1 (plus the full instance), forged limb assignment, public values) executed through CircuitFixed.Define: limb_i + k*p for every limb index and k in {1, 2, 2^20, largest k the 144-bit reduction admits}, pairs / all limbs shifted, borrow-shifted limbs with the same packed value, random limbs in [0,2^64), random / off-by-one public values, public values reduced modulo 2^128; the public values are recomputed from the forged limbs unless stated. Oracle: ACCEPT iff the limbs are the true public inputs (all < 2^32) and the values are their packing; every accepted value must be < 2^128. A shadow-bound run additionally requires the packing equality to be wrap-free under the enforced limb bounds. Non-trivial = limbs or values differ from the honest ones (the honest control counts once); distinct by case id. Also: a second limb set for unchanged public values, low-word packings, two public values of one hash shifted by (a, -a*2^128), and the wrapper compiled with a real builder (honest assignment solvable, nine forged ones not).",
 			Assumptions: []string{
 				"the Solidity contract (truncation of each public value to 128 bits in secondHash) cannot be executed here; it is the reason values >= 2^128 matter",
 			},
@@ -367,7 +367,7 @@ func init() {
 		return &fw.Prop{
 			ID:    "C04",
 			Level: "exploration",
-			Rule:  "cases = (wrapper in {VerifierCircuit, CircuitFixed} built from a template (real proof + its verifier key), proving-time assignment whose verifier key differs from the template's): each of the 17 key elements perturbed (+1, random, zero) — the harness computes from the recorded query indices which cap entries no query round selects and always includes them —, the other inner circuit's complete key, its digest only, its cap only, a random key; executed like gnark's IsSolved(template, assignment): Define runs on the template's constants with the assignment's leaves. Verdict must not be ACCEPT unless the differing key elements are public values of the wrapper (none are). Non-trivial = the assignment key differs from the template key; distinct by case id.",
+			Rule:  "cases = (wrapper in {VerifierCircuit, CircuitFixed} built from a template (real proof + its verifier key), proving-time assignment whose verifier key differs from the template's): each of the 17 key elements perturbed (+1, random, zero) — the harness computes from the recorded query indices which cap entries no query round selects and always includes them —, the other inner circuit's complete key, its digest only, its cap only, a random key; executed like gnark's IsSolved(template, assignment): Define runs on the template's constants with the assignment's leaves. Verdict must not be ACCEPT unless the differing key elements are public values of the wrapper (none are). Non-trivial = the assignment key differs from the template key; distinct by case id. Also: -1, structured steps (2^56 .. 2^224, multiples of the Goldilocks prime) on every key element and two selected cap entries exchanged.",
 			Assumptions: []string{
 				"visibility of the key is read from the struct tags: VerifierData carries no `gnark:\",public\"` tag in either wrapper",
 			},
